@@ -308,6 +308,24 @@ example : (obs (runOps exApp Twisted.Http.Channel.init (exChunks.map .data))).wr
     obs (runOps exApp Twisted.Http.Channel.init (exChunks.map .data)) = obs (runOps exApp Twisted.Http.Channel.init [.data exChunks.flatten]) := by
   decide +kernel
 
+/-! ### non-vacuity at the deliveries the mutation audit found under-tested: a chunked request with an
+    extension and a trailer, pipelined, where one delivery ends after the CR of the chunk-size line, one
+    after the CR of the trailer line and one between the CR and LF that end the trailer section -/
+
+/-- `POST / HTTP/1.1\r\nTransfer-Encoding: chunked\r\n\r\n3;x\r\nabc\r\n0\r\nT: v\r\n\r\nGET /b HTTP/1.1\r\n\r\n` cut after the CR of the
+    chunk-size line, after the CR of the trailer line and between the CR and LF that end the trailer section -/
+def exChunks2 : List Bytes :=
+  [[80, 79, 83, 84, 32, 47, 32, 72, 84, 84, 80, 47, 49, 46, 49, 13, 10, 84, 114, 97, 110, 115, 102, 101, 114, 45, 69, 110, 99, 111, 100, 105, 110, 103, 58, 32, 99, 104, 117, 110, 107, 101, 100, 13, 10, 13, 10, 51, 59, 120, 13],
+   [10, 97, 98, 99, 13, 10, 48, 13, 10, 84, 58, 32, 118, 13],
+   [10, 13],
+   [10, 71, 69, 84, 32, 47, 98, 32, 72, 84, 84, 80, 47, 49, 46, 49, 13, 10, 13, 10]]
+
+example : (obs (runOps exApp Twisted.Http.Channel.init (exChunks2.map .data))).written = [48, 49] ∧
+    ((obs (runOps exApp Twisted.Http.Channel.init (exChunks2.map .data))).delivered.map (·.body)) = [[97, 98, 99], []] ∧
+    (obs (runOps exApp Twisted.Http.Channel.init (exChunks2.map .data))).closed = false ∧
+    obs (runOps exApp Twisted.Http.Channel.init (exChunks2.map .data)) = obs (runOps exApp Twisted.Http.Channel.init [.data exChunks2.flatten]) := by
+  decide +kernel
+
 /-! ### the dead `length` attribute: why "same decoder" is up to `lenEq` -/
 
 def exS1 : Dec := { Twisted.Http.Chunked.init with buffer := [53, 13, 10, 97, 98] }
